@@ -45,6 +45,10 @@ type nameSpace struct {
 	// javascript: URIs are disallowed in templates in this namespace.
 	cspCompatible bool
 	esc           escaper
+	// pristine holds a copy of each template's parse tree made just before the
+	// tree is first rewritten, so that copies derived later for other contexts
+	// do not inherit the sanitizers and text edits of the first context.
+	pristine map[string]*parse.Tree
 }
 
 // Templates returns a slice of the templates associated with t, including t
